@@ -43,6 +43,9 @@ func (e *Env) fail(f string, a ...any) {
 func resolveType(pkg *types.Package, s string) (types.Type, error) {
 	s = strings.TrimSpace(s)
 	switch {
+	case strings.HasPrefix(s, "func("):
+		// function types are opaque references
+		return types.NewSignatureType(nil, nil, nil, nil, nil, false), nil
 	case strings.HasPrefix(s, "*"):
 		t, err := resolveType(pkg, s[1:])
 		if err != nil {
@@ -414,6 +417,13 @@ func (e *Env) objVal(obj types.Object) Val {
 			}
 		}
 		e.fail("unsupported constant %s", o.Name())
+	case *types.Func:
+		// a package-level function used as a value
+		full := o.FullName()
+		name := sym("func " + shortName(full))
+		c.decl("(declare-const " + name + " Int)")
+		c.decl("(assert (not (= " + name + " 0)))")
+		return Val{T: name, Ty: o.Type()}
 	case *types.Var:
 		// package-level variable: a global cell
 		name := sym("global " + shortName(o.Pkg().Path()+"."+o.Name()))
